@@ -22,6 +22,10 @@ def replay_form(p: dict) -> int:
         from .exactq import replay_exact
 
         return replay_exact(p)
+    if p.get("kind") == "expr":
+        from .exprcheck import replay_expr
+
+        return replay_expr(p)
     if p.get("kind") == "bounds":
         from .kernelprops import replay_bounds
 
